@@ -12,6 +12,25 @@ def helper_opaque(p):
     return p.startswith("parse::helpers::") or p.startswith("parse::unescape::") or p.startswith("parse::rule::")
 
 
+def constant_value(v):
+    """a value fixed at compile time: literals, trees of them, function items and capture-free closures (a descriptor
+    `Literal { lead: 1, trail: 0, decode: |s| .. }`)"""
+    k = v[0]
+    if k == "const":
+        return True
+    if k == "adt":
+        return all(constant_value(x) for x in v[3])
+    if k == "tup":
+        return all(constant_value(x) for x in v[1])
+    if k == "closure":
+        return not v[2]
+    if k == "fn":
+        return True
+    if k in ("rref", "box"):
+        return constant_value(v[1])
+    return False
+
+
 def action_term(f, n, nsyms, spec=None):
     """normalised outcomes of __action<n> with its symbol values named $0..$k:  list of (conds, term).
     A helper called with the token text and otherwise only constants (`Literal::Int.parse(s)`, `radix(s, 16)`) is one
@@ -32,7 +51,7 @@ def action_term(f, n, nsyms, spec=None):
                 continue
             shown = [show(norm(a)) for a in e[2]]
             text = [i for i, a in enumerate(shown) if re.fullmatch(r"\$\d+\.1", a)]
-            consts = [i for i, a in enumerate(e[2]) if Interp.is_closed_literal(a)]
+            consts = [i for i, a in enumerate(e[2]) if constant_value(a)]
             if len(text) != 1 or len(consts) + 1 != len(shown) or not consts:
                 continue
             sc = short_callee(e[1])
@@ -65,7 +84,16 @@ def helper_summary(f, g, name, opaque=None):
     path, template = sp
     it = Interp(f, opaque=opaque)
     st = State()
-    args = [("sym", "value") if a is None else a for a in template]
+    def thaw(v):
+        # a resolved reference (read-only snapshot) becomes a live reference to a fresh cell again
+        if v[0] == "rref":
+            return ("ref", st.alloc(thaw(v[1])))
+        if v[0] == "adt":
+            return ("adt", v[1], v[2], tuple(thaw(x) for x in v[3]))
+        if v[0] == "tup":
+            return ("tup", tuple(thaw(x) for x in v[1]))
+        return v
+    args = [("sym", "value") if a is None else thaw(a) for a in template]
     outs = []
     for s_, rv in it.run(path, args, st):
         outs.append((tuple(sorted(set(norm_cond(c) for c in s_.conds))), show(norm(it.resolve(s_, rv))), s_, rv))
